@@ -40,6 +40,12 @@ def feq(g, e):
 
 def shard(ctx):
     rng, P = ctx.rng, ctx.params
+    from .. import faults, seeds
+    fr = __import__("random").Random("c16-failing-%d-%d" % (ctx.seed, ctx.index))
+    # skeletons: cut short only (garbled Havok payloads reach the listed abort findings of C18 and would take the worker down)
+    bads = [ctx.write("failing-%d.sklb" % i, data[:fr.randrange(8, len(data))]) for i, (_, data, _) in enumerate(seeds.seeds_sklb(fr)[:3])]
+    badp = [ctx.write("failing-%d.pbd" % i, d) for i, d in enumerate(x for _, data, _ in seeds.seeds_pbd(fr)[:2] for x in faults.damaged_variants(fr, data, 3))]
+    ctx.failing_calls_first([("sklb.parse", (b,)) for b in bads] + [("pbd.parse", (b,)) for b in badp], before=("sklb.parse", "pbd.parse", "cmp.parse", "tera.parse", "lgb.parse"), rate=0.05)
     if ctx.index == 0:
         sample_lgb(ctx)
     for _ in range(P["n"]):
